@@ -567,6 +567,8 @@ def run(ck, F):
     _borrow.borrow(ck, F, 'C14', 'C19', {'no-unchecked-deref'})
     # an unformatted write of the printer stays within the object it takes its bytes from
     _borrow.borrow(ck, F, 'C18', 'C19', {'explicit-extent-writes'})
+    # a static downcast to the wrong class makes every later access through it an access outside the object
+    _borrow.borrow(ck, F, 'C14', 'C19', {'downcasts-confirmed'})
 
     # the pool chain after an allocation: nothing that was reachable is lost, everything new is reachable
     R7 = ck.rule('C19.chain-preserved', 'on every path of arena::allocate (and of the constructor) the chain mem -> previous -> ... '
